@@ -2,7 +2,6 @@ package gen
 
 import "verif/plan"
 
-func genC08(r *plan.Rng) *plan.Plan { panic("C08 generator not built yet") }
 func genC06(r *plan.Rng) *plan.Plan { panic("C06 generator not built yet") }
 func genC14(r *plan.Rng) *plan.Plan { panic("C14 generator not built yet") }
 func genC15(r *plan.Rng) *plan.Plan { panic("C15 generator not built yet") }
